@@ -4,9 +4,11 @@ state graph (EDGE/INIT lines); the Go driver (harness/internal/drivers/ports/fol
 gets the whole graph plus scripts of operation labels, steps the real object through them
 and, after every step, requires the observed (result, observable state) to match at least
 one specification edge with that label from one of the states the history can be in.
-Scripts: one per specification edge (labels of a shortest path to the edge's source, then
-greedily through uncovered edges) and seeded random walks chosen online by the driver
-among the labels enabled in the state the real object actually reached."""
+Histories: (explore) a breadth-first exploration of the part of the specification graph the
+real, deterministic object can reach - every state reached is expanded with every label
+enabled there, each on a fresh object replaying the first-found path; (cover, optional) one
+script per specification edge; and seeded random walks chosen online by the driver among the
+labels enabled in the state the real object actually reached."""
 import json
 from . import core
 
@@ -21,20 +23,22 @@ def graph_from_tlc(ck, spec_dirs, module, cfg, workers=4, timeout=600):
     return g, r
 
 
-def follow(ck, g, family, driver, config=None, walks=100, walk_len=40, cover_limit=None, timeout=1800):
+def follow(ck, g, family, driver, config=None, walks=100, walk_len=40, explore=True, explore_limit=0, cover=False,
+           cover_limit=None, timeout=1800):
     """Returns (output, edges) — output["mismatches"] entries carry op/want/got/prefix/diag/ctx."""
     keys = list(g.nodes.keys())
     idx = {k: i for i, k in enumerate(keys)}
     nodes = [g.nodes[k] for k in keys]
     edges = [{"s": idx[s], "a": a, "t": idx[t]} for (s, a, t) in g.edges]
     inits = [idx[k] for k in g.inits]
-    hs = g.edge_cover(limit=cover_limit, rng=ck.rng)
+    hs = g.edge_cover(limit=cover_limit, rng=ck.rng) if cover else []
     scripts = []
     for h in hs:
         scripts.append({"init": idx[core.canon(h["init"])],
                         "labels": [{"op": s["a"]["op"], "arg": s["a"]["arg"]} for s in h["steps"]]})
     payload = {"config": config or {}, "nodes": nodes, "inits": inits, "edges": edges, "scripts": scripts,
-               "walks": walks, "walk_len": walk_len, "seed": ck.seed * 7919 + 13}
+               "walks": walks, "walk_len": walk_len, "seed": ck.seed * 7919 + 13, "max_mismatches": 200000,
+               "explore": bool(explore), "explore_limit": explore_limit}
     out = core.harness(ck.binary(family), driver, payload, timeout=timeout)
     out["mismatches"] = out.get("mismatches") or []
     out["covered_edges"] = out.get("covered_edges") or []
@@ -43,10 +47,12 @@ def follow(ck, g, family, driver, config=None, walks=100, walk_len=40, cover_lim
     ck.cov["evaluations"] += out["steps"]
     for s in (out.get("samples") or [])[:3]:
         ck.sample({"init": s["init"], "steps": [[x["a"]["op"], x["a"]["arg"], x["a"]["res"]] for x in s["steps"]]})
-    ck.note("followed %d histories (%d edge-cover scripts + %d online walks), %d steps, %d scripts cut short by an allowed "
-            "alternative; %d of %d specification edges exercised; %d mismatches" % (
-                out["histories"], len(scripts), walks, out["steps"], out.get("truncated", 0),
-                len(out["covered_edges"]), len(edges), len(out["mismatches"])))
+    if explore and out.get("explore_cut"):
+        raise core.Broken("exploration of the real-reachable graph hit its limit of %d transitions" % explore_limit)
+    ck.note("followed %d histories (exploration: %d states / %d transitions of the real-reachable graph; %d edge-cover scripts; "
+            "%d online walks), %d steps, %d scripts cut short by an allowed alternative; %d of %d specification edges exercised; "
+            "%d mismatches" % (out["histories"], out.get("explored_states", 0), out.get("explored_transitions", 0), len(scripts), walks,
+                               out["steps"], out.get("truncated", 0), len(out["covered_edges"]), len(edges), len(out["mismatches"])))
     return out, edges
 
 
